@@ -72,7 +72,7 @@ type scase struct {
 	ChunkSize int        `json:"chunk_size"`
 	Ops       []hop      `json:"ops"`
 	Crash     *crashSpec `json:"crash,omitempty"`
-	// Rounds: a corpus case whose failure was schedule-dependent is replayed this many times (thorough: three times as often)
+	// Rounds: a corpus case whose failure was schedule-dependent is replayed this many times (thorough: twice as often)
 	Rounds int `json:"rounds,omitempty"`
 }
 
@@ -1864,7 +1864,7 @@ func corpusCases() []scase {
 			if rp.Input.Rounds > 1 {
 				n = rp.Input.Rounds
 				if args.Thorough {
-					n *= 3
+					n *= 2
 				}
 			}
 			for i := 0; i < n; i++ {
@@ -1924,7 +1924,7 @@ func main() {
 
 	ng, nc := 30, 44
 	if args.Thorough {
-		ng, nc = 120, 150
+		ng, nc = 80, 100
 	}
 	gs := res.Section("graceful", "system-correspondence",
 		"histories of 5..15 operations (writes of 1..260 events with monotone, tied timestamps to 1..4 partitions over chunk sizes 700..20000 bytes so that chunks roll over, CREATE/DELETE PIPE incl. the name s, TRUNCATE, graceful Stop/Start with and without waiting for the pipes, also directly after an acknowledgement); after every restart: full reads, 5..8 RANGE probes per partition at hull and chunk boundaries, SHOW PARTITIONS/PIPES, DESCRIBE PIPE, pipe positions, no duplicate in pipe partitions; every observation also compared with the Lean model; non-trivial = at least 3 operations, distinct by case")
@@ -1950,6 +1950,12 @@ func main() {
 	}
 	for i := 0; i < 2; i++ {
 		res.Sample(map[string]interface{}{"section": "crash", "case": xcases[len(xcases)-1-i]})
+	}
+	if fds, err := ioutil.ReadDir("/proc/self/fd"); err == nil {
+		// stopped in-process servers never close their chunk files (no Shutdown in the library's journal controller) and,
+		// since the shutdown syncs every journal, each stop opens the writers of all journals: the run must stay well below
+		// the descriptor limit (20000 here)
+		res.Dist(xs, fmt.Sprintf("descriptors-in-use-at-end(limit 20000):%d", len(fds)/1000*1000))
 	}
 	res.Write(args.Out)
 }
